@@ -343,8 +343,11 @@ def recording(rec):
     o_poly, o_curve, o_deriv = ff.np.polyfit, ff.opt.curve_fit, ff.utils.numerical_derivative
 
     def polyfit(x, y, deg, *a, **kw):
-        out = o_poly(x, y, deg, *a, **kw)
         w = kw.get("w")
+        if w is not None and not np.all(np.isfinite(w)):
+            # LAPACK may never return on infinite weights; numpy raises LinAlgError (a ValueError) when it does
+            raise np.linalg.LinAlgError("non-finite weights handed to polyfit (harness guard)")
+        out = o_poly(x, y, deg, *a, **kw)
         rec.polyfit.append({"x": [float(v) for v in x], "y": [float(v) for v in y], "deg": int(deg),
                             "w": None if w is None else [float(v) for v in w], "cov_kw": kw.get("cov"),
                             "popt": [float(v) for v in out[0]], "pcov": [[float(v) for v in r] for r in out[1]]})
